@@ -5,6 +5,14 @@ from .state import Unsupported, split_off
 
 MAXW = 8
 
+import os as _os
+BIG_ENDIAN = bool(_os.environ.get('LLTD_BIG_ENDIAN'))     # memory byte order of the modelled target
+
+
+def mem_byte(t, i, w):
+    """Byte at memory position i of a w-byte cell holding value term t."""
+    return mk_byte(t, (w - 1 - i) if BIG_ENDIAN else i)
+
 
 def off_key(st, offterm):
     return split_off(lin_of(st.canon(offterm)))
@@ -83,7 +91,7 @@ def load_byte(st, o, symkey, c):
                     d = st.dom(t)
                     if d.lo >= 0 and d.hi <= 255:
                         return t
-                return mk_byte(t, back)
+                return mem_byte(t, back, w)
     # other symbolic cells that may alias
     if o.cells:
         cache = {}
@@ -133,6 +141,8 @@ def load_bytes(st, o, offterm, n):
 
 def reassemble(bs):
     """cat of bytes, recognising byte(t,0..n-1) of one term."""
+    if BIG_ENDIAN:
+        bs = list(reversed(bs))
     n = len(bs)
     b0 = bs[0]
     if b0[0] == 'byte' and b0[2] == 0:
@@ -228,7 +238,7 @@ def kill_range(st, o, symkey, c, n):
         for i in range(w2):
             p = k[1] + i
             if p < c or p >= c + n:
-                b = mk_byte(t2, i)
+                b = mem_byte(t2, i, w2)
                 o.cells[(symkey, p)] = (1, b)
 
 
@@ -250,7 +260,7 @@ def store_bytes(st, o, offterm, bs):
     while i < n:
         b = bs[i]
         # regroup byte(t,0..w-1) runs into one cell (keeps pointers and wide values intact)
-        if b[0] == 'byte' and b[2] == 0:
+        if not BIG_ENDIAN and b[0] == 'byte' and b[2] == 0:
             t = b[1]
             w = 1
             while i + w < n and w < MAXW and bs[i + w] == ('byte', t, w):
